@@ -240,11 +240,20 @@ class KernelModel:
                     t = self.tag_of(init)
                     if t:
                         p = ('VALID(%s)' % t, True)
-        elif k == 'Binary' and cond['op'] == 'Ge' and self.idx_tag(cond['ch'][0]) == 'END':
-            # `end >= window - 1` is the driver's own condition for `start.is_some()`
-            r = peel(cond['ch'][1])
-            if self._is_window_minus_one(r):
+        elif k == 'Binary' and cond['op'] in ('Ge', 'Le', 'Gt', 'Lt'):
+            # `end >= window - 1` (also written `window - 1 <= end`, `end > window - 2` is not
+            # accepted) is the driver's own condition for `start.is_some()`
+            a_, b_, op_ = cond['ch'][0], cond['ch'][1], cond['op']
+            if op_ == 'Le':
+                a_, b_, op_ = b_, a_, 'Ge'
+            if op_ == 'Ge' and self.idx_tag(a_) == 'END' and self._is_window_minus_one(peel(b_)):
                 p = ('SOME(OLD)', True)
+            elif cond['op'] == 'Lt' and self.idx_tag(cond['ch'][0]) == 'END' and \
+                    self._is_window_minus_one(peel(cond['ch'][1])):
+                p = ('SOME(OLD)', False)         # `end < window - 1`: the window is still filling
+            elif cond['op'] == 'Gt' and self.idx_tag(cond['ch'][1]) == 'END' and \
+                    self._is_window_minus_one(peel(cond['ch'][0])):
+                p = ('SOME(OLD)', False)
         if p is None:
             s = src(cond)
             return {s if positive else 'NOT(%s)' % s}
